@@ -254,6 +254,11 @@ theorem equal_bytes_equal_state (ch ch' : Chain E) (wf : Flat.FlatWF ch) (wf' : 
     (∀ a k, (Flat.utf8 a).length ≤ 65521 → (ch.cstore.get? a).bind (·.get k) = (ch'.cstore.get? a).bind (·.get k)) :=
   Flat.flatten_injective ch ch' wf wf' h
 
+/-- the hypothesis `FlatWF` is not wishful: it is what the executable check `Flat.wfCheck` establishes, and the wasm driver runs that
+check on every state it flattens (`rawdump` answers `raw-not-wf…` otherwise, which the implementation never prints) -/
+theorem flat_wf_is_checked (ch : Chain E) (h : Flat.wfCheck ch = true) : Flat.FlatWF ch :=
+  Flat.wfCheck_sound ch h
+
 /-- a state with two accounts, one contract and one stored entry -/
 def sampleChain : Chain Unit :=
   { bank := [("a", [⟨"d1", 5⟩]), ("b", [])]
